@@ -562,15 +562,7 @@ def graph_builder_table(F, rep, rule):
 
 # =========================================================================== drivers
 
-class SetV:
-    """model of bit_set::BitSet over concrete small ids"""
-    __slots__ = ("s",)
-
-    def __init__(self, s=()):
-        self.s = frozenset(s)
-
-    def __repr__(self):
-        return "set%s" % sorted(self.s)
+from .dt import SetV, bitset_model
 
 
 class DriverOracles(WalkOracles):
@@ -594,40 +586,15 @@ class DriverOracles(WalkOracles):
             return Opaque(dest_ty, {"fmt"})
         if name == "len" and ("BoomHashMap" in path or "DebruijnGraph" in path):
             return Int(64, False, val=self.N)
-        if "BitSet" in path or "bit_set" in path or "bit_set::BitSet" in fn.get("key", ""):
-            if name in ("with_capacity", "new", "default"):
-                return SetV()
-            r = args[0]
-            sv = it.read(r.cell, r.path) if isinstance(r, Ref) else r
-            if not isinstance(sv, SetV):
-                raise Undecided("bit set operation on %r" % (sv,))
-            i = self.conc(args[1]) if len(args) > 1 else None
-            if name == "insert":
-                if i is None:
-                    raise Undecided("insert of a symbolic id")
-                it.write(r.cell, r.path, SetV(sv.s | {i}))
-                self.events.append(("insert", i))
-                return mkbool(i not in sv.s)
-            if name == "remove":
-                if i is None:
-                    raise Undecided("remove of a symbolic id")
-                it.write(r.cell, r.path, SetV(sv.s - {i}))
-                self.events.append(("remove", i))
-                return mkbool(i in sv.s)
-            if name == "contains":
-                if i is None:
-                    raise Undecided("contains of a symbolic id")
-                self.events.append(("contains", i))
-                return mkbool(i in sv.s)
-            if name == "extend" and len(args) == 2:
-                from .models import drain_iter
-                items = drain_iter(it, args[1])
-                if items is None or not all(isinstance(x, Int) and x.is_conc() for x in items):
-                    raise Undecided("bit set extended by %r" % (args[1],))
-                for x in items:
-                    self.events.append(("insert", x.val))
-                it.write(r.cell, r.path, SetV(sv.s | {x.val for x in items}))
-                return Tup([])
+        r_ = bitset_model(it, fn, args, dest_ty, term, caller, on_event=lambda k, x: self.events.append((k, x)))
+        if r_ is not NotImplemented:
+            return r_
+        if "BoomHashMap" in path and name == "iter" and args and "index" in tags_of(recv(it, args[0])):
+            # the table's entries in slot order: (k-mer, extensions, payload) of ids 0..N — the extensions are arbitrary (symbolic)
+            from .models import IterV
+            items = [Tup([Ref(Cell(Opaque("K", {"kmer", "id-%d" % i}), "k%d" % i)), Ref(Cell(exts_sym("tx%d" % i), "x%d" % i)),
+                          Ref(Cell(Opaque("D", {"data"}, {"fold": ("t%d" % i,)}), "d%d" % i))]) for i in range(self.N)]
+            return IterV("owned", (Ref(Cell(VecV(items), "index-iter")), 0, self.N))
         if p == self.builder_path or path == self.builder_path:
             me = args[0]
             comp = it.read(me.cell, me.path)
@@ -643,7 +610,7 @@ class DriverOracles(WalkOracles):
                 raise Undecided("the worker struct carries no availability set")
             avail = comp.fields[fi].s
             strand = [f for f in comp.fields if isinstance(f, Int) and f.kind == "bool"]
-            self.events.append(("build", i, i in avail, strand[0].val if strand and strand[0].is_conc() else None))
+            self.events.append(("build", i, i in avail, strand[0].val if strand and strand[0].is_conc() else None, frozenset(avail)))
             # the walk consumes the seed and a scripted subset of the other still-available ids
             others = sorted(avail - {i})
             eaten = {i}
@@ -697,6 +664,34 @@ class DriverOracles(WalkOracles):
         return self.common(it, fn, args, dest_ty, term, caller)
 
 
+def _exts_var_of(v):
+    """name of the symbolic extension byte a value consists of ('tx1' …), or None"""
+    if not isinstance(v, Int) or v.is_conc():
+        return None
+    names = set()
+    for t in v.getbits():
+        if t is TOP:
+            return None
+        for m in t:
+            for i in m:
+                names.add(bv.var_name(i)[0])
+    return names.pop() if len(names) == 1 else None
+
+
+def _driver_unknown_compare(self, it, op, a, b):
+    # emptiness tests on a table entry's (arbitrary) extensions: both answers are possible
+    if op in ("Eq", "Ne"):
+        for x, y in ((a, b), (b, a)):
+            nm = _exts_var_of(x)
+            if nm and nm.startswith("tx") and isinstance(y, Int) and y.is_conc() and y.val == 0:
+                empty = self.choose("exts-of-%s-empty" % nm[2:], (False, True))
+                return empty if op == "Eq" else not empty
+    return None
+
+
+DriverOracles.unknown_compare = _driver_unknown_compare
+
+
 def find_builder(F, graph_route):
     step, ext = find_extender(F, graph_route)
     bs = find_callers(F, ext["path"], exclude=(ext["path"],))
@@ -713,15 +708,17 @@ def driver_checks(events, n, censored, stranded, graph_route):
     probs = []
     avail = set(range(n)) - set(censored)
     builds = [e for e in events if e[0] == "build"]
-    # every id inserted once before anything else happens to the set
-    ins = [e[1] for e in events if e[0] == "insert"]
-    if sorted(ins) != list(range(n)):
-        probs.append("the availability set is initialised with %s, not with every id 0..%d" % (ins, n - 1))
-    first_build = next((k for k, e in enumerate(events) if e[0] == "build"), len(events))
-    for c in censored:
-        k = next((k for k, e in enumerate(events) if e == ("remove", c)), None)
-        if k is None or k > first_build:
-            probs.append("censored id %d is not removed from the availability set before building starts" % c)
+    # state-based: when the first node is built the availability set holds exactly the non-censored ids (however it was constructed)
+    if builds:
+        got = set(builds[0][4])
+        if got != avail:
+            extra, missing = sorted(got - avail), sorted(avail - got)
+            if extra and set(extra) <= set(censored):
+                probs.append("censored id(s) %s are still available when building starts (censor list %s)" % (extra, list(censored)))
+            else:
+                probs.append("when building starts the availability set is %s, not every non-censored id %s" % (sorted(got), sorted(avail)))
+    elif avail:
+        probs.append("no node is built although ids %s are available" % sorted(avail))
     for e in builds:
         if not e[2]:
             probs.append("a node is built from seed %d although it is no longer available (it was placed in an earlier node or censored)" % e[1])
@@ -811,7 +808,7 @@ def graph_driver_table(F, rep, rule):
     rows = 0
     OPTION = "std::option::Option"
     for stranded in (False, True):
-        for censored in (None, [1], [0, 2]):
+        for censored in (None, [], [1], [0, 2], [2, 0], [1, 1]):
             def mk(script):
                 return DriverOracles(script, builder["path"], True)
 
